@@ -12,7 +12,7 @@ Driver requests of property C07 (whole runs and phase tables).
                       (σ is the state `random.seed(s)` installs, for the seed of this command line)
       answer: `OK T <#draws consumed while parsing> <#draws consumed later> <code points of the text> W <files written>`
               or `OK E <outcome>`
-  shufflerun <argv> <stdin text> <input name> <base header> <rng₀ draws> <σ draws>      (draw format of Driver/Shuffle)
+  shufflerun <argv> <stdin text> <input name> <base header> <files> <rng₀ draws> <σ draws>      (draw format of Driver/Shuffle)
       answer: `OK T <#draws consumed> <code points of the text>` or `OK E <outcome>`
   phasetrace <tool> <hasSeed> <seed> <parseDraws> <buildDraws> <transDraws> <shuffleDraws>
       answer: the generator events an observer sees (P( seed other draws )P …)
@@ -109,10 +109,11 @@ def handle (opname : String) (a : Args) : Option String :=
       let stdin ← str
       let name ← str
       let base ← listOf (do let k ← str; let v ← str; pure (k, v))
+      let files ← listOf (do let t ← str; let r ← str; pure (t, r))
       let r0 ← listOf Shuffle.drawP
       let rs ← listOf Shuffle.drawP
-      pure (match shuffleRun (fun _ => rs) ⟨name, base⟩ argv stdin r0 with
-        | (.text s, u) => ok ("T " ++ toString u ++ " " ++ fmtInts (intsOfStr s))
+      pure (match shuffleRun (fun _ => rs) ⟨name, base, fun tok => files.lookup tok⟩ argv stdin r0 with
+        | (.text s, u, wr) => ok ("T " ++ toString u ++ " " ++ fmtInts (intsOfStr s)) ++ fmtWritten wr
         | (o, _) => fmtOutcome (o, 0, 0))) a
   | "phasetrace" => run (do
       let tool ← str; let has ← bool; let s ← int
